@@ -79,7 +79,8 @@ JudgeDrawing(sc, d, img, w0, w1, r, rowcap) ==
              (IF d.faulted THEN {"C12"} ELSE {}) \cup
              (IF cfg.iface = "spi" THEN {"C06"} ELSE IF cfg.iface \in {"p8", "p16"} THEN {"C07"} ELSE {}) \cup
              (IF sc.tag = "colour" THEN {"C05"} ELSE {}) \cup (IF sc.tag = "testimage" THEN {"C19"} ELSE {}) \cup
-             (IF sc.tag = "orient-drawn" THEN {"C15"} ELSE {})
+             (IF sc.tag = "orient-drawn" THEN {"C15"} ELSE {}) \cup
+             (IF n = "draw_iter" /\ cfg.batch THEN {"C20"} ELSE {})
       newflags == w1.ctl.flags \ w0.ctl.flags
       wpp == WordsPerPixel(w1.ctl)
       fr == FramingErrors(w0.ctl, w1.cmds, wpp, IsDrawTarget(n))
@@ -160,6 +161,8 @@ JudgeInit(sc, w0, w1, r) ==
              "init returned earlier than 120 ms after sleep-out")
       \o Chk("sleep_spacing" \notin (c.flags \ w0.ctl.flags), r, {"C13"}, "sleep-in/out commands less than 120 ms apart")
       \o Chk(resetOk, r, {"C17"}, "reset sequence malformed")
+      \o Chk(w1.wflags \cap {"sampled_unknown", "dc_unknown"} = {}, r, {"C17", IF cfg.iface = "spi" THEN "C06" ELSE "C07"},
+             "a word was put on the bus while a data / D/C line had never been driven")
       \o Chk(r.name # "init" \/ (r.obs.rot = cfg.rot /\ r.obs.mir = cfg.mir /\ r.obs.sleeping = FALSE
                                    /\ r.obs.size = LogicalSize(cfg, Orient0(sc))), r, {"C10", "C13"},
              "getters after init disagree with the options")
@@ -196,7 +199,10 @@ JudgeOther(sc, d, w0, w1, r) ==
     [] n \in {"sleep", "wake"} ->
          Chk(r.obs.sleeping = (n = "sleep"), r, {"C13"}, "is_sleeping() does not follow the call")
       \o Chk(c.sleep = (n = "sleep"), r, {"C13"}, "controller sleep state differs from the call")
-      \o Chk(One(IF n = "sleep" THEN 16 ELSE 17, <<>>), r, {"C13"}, "sleep/wake must send exactly its one command")
+      \* its own command, once -- or nothing at all if the controller already is in that state (a redundant call
+      \* may be skipped; the property only demands that flag and controller agree and that what is sent is spaced)
+      \o Chk(One(IF n = "sleep" THEN 16 ELSE 17, <<>>) \/ (cm = <<>> /\ w0.ctl.sleep = (n = "sleep")), r, {"C13"},
+             "sleep/wake sent something other than its one command")
       \o Chk(slpOk, r, {"C13"}, "call returned earlier than 120 ms after the sleep-in/out command")
     [] OTHER -> <<>>)
   \o Chk("sleep_spacing" \notin (c.flags \ w0.ctl.flags), r, {"C13"}, "sleep-in/out commands less than 120 ms apart")
@@ -212,6 +218,10 @@ JudgeAlways(sc, d1, w0, w1, r) ==
          {"C10"}, "reported orientation/size differs from the last orientation set")
   \o Chk(w1.ctl.madctl = MadctlOf(sc.cfg.bgr, d1.orient, sc.cfg.refv, sc.cfg.refh), r, {"C10"},
          "controller address mode differs from the last orientation set")
+  \o Chk(w1.wflags \cap {"sampled_unknown", "dc_unknown"} = {}, r,
+         IF sc.cfg.iface = "spi" THEN {"C06"} ELSE {"C07"}, "a word was put on the bus while a data / D/C line had never been driven")
+  \o Chk(w1.ctl.colmod % 8 = ColmodFor(sc.cfg.colour) % 8, r, {"C05", "C11"},
+         "the interface pixel format in the controller no longer matches the colour type")
 
 ---------------------------------------------------------------------------
 \* a call during which a low-level failure was injected (C12)
